@@ -9,7 +9,9 @@ use crate::{
             trivia_to_vec, EndTokenType, FormatTokenType,
         },
         trivia::{strip_trivia, FormatTriviaType, UpdateLeadingTrivia, UpdateTrailingTrivia},
-        trivia_util::{self, CommentSearch, GetTrailingTrivia, HasInlineComments},
+        trivia_util::{
+            self, CommentSearch, GetLeadingTrivia, GetTrailingTrivia, HasInlineComments,
+        },
     },
     shape::Shape,
 };
@@ -123,6 +125,17 @@ fn handle_field_key_equals_comments<T: Node>(
     (key_leading_comments, equal)
 }
 
+/// The trivia in front of a field, without the newline of an empty line kept from the input when the table is written on one line
+fn without_newlines_on_one_line(trivia: Vec<Token>, table_type: TableType) -> Vec<Token> {
+    match table_type {
+        TableType::MultiLine => trivia,
+        _ => trivia
+            .into_iter()
+            .filter(|t| !trivia_util::trivia_is_newline(t))
+            .collect(),
+    }
+}
+
 fn format_field(
     ctx: &Context,
     field: &Field,
@@ -169,6 +182,7 @@ fn format_field(
             // Get the new leading comments to add before the key, and the equal token
             let (key_leading_comments, equal) =
                 handle_field_key_equals_comments(ctx, &brackets, equal, shape);
+            let key_leading_comments = without_newlines_on_one_line(key_leading_comments, table_type);
 
             // Update the key to contain the leading comments, remove the trailing comments,
             // and also add the extra leading_trivia we add in general to all fields
@@ -194,6 +208,7 @@ fn format_field(
             // Get the new leading comments to add before the key, and the equal token
             let (key_leading_comments, equal) =
                 handle_field_key_equals_comments(ctx, &key, equal, shape);
+            let key_leading_comments = without_newlines_on_one_line(key_leading_comments, table_type);
 
             // Update the key to contain the leading comments, remove the trailing comments,
             // and also add the extra leading_trivia we add in general to all fields
@@ -215,7 +230,12 @@ fn format_field(
                 Field::NoKey(formatted_expression.update_leading_trivia(leading_trivia))
             } else {
                 let formatted_expression = format_expression(ctx, expression, shape);
-                Field::NoKey(formatted_expression)
+                let leading_trivia =
+                    without_newlines_on_one_line(formatted_expression.leading_trivia(), table_type);
+                Field::NoKey(
+                    formatted_expression
+                        .update_leading_trivia(FormatTriviaType::Replace(leading_trivia)),
+                )
             }
         }
 
@@ -248,10 +268,21 @@ pub fn create_table_braces(
             ContainedSpan::new(start_brace_token, end_brace_token)
         }
 
-        TableType::SingleLine => ContainedSpan::new(
-            fmt_symbol!(ctx, start_brace, "{ ", shape),
-            fmt_symbol!(ctx, end_brace, " }", shape),
-        ),
+        TableType::SingleLine => {
+            let end_brace = fmt_symbol!(ctx, end_brace, " }", shape);
+            // Remove any newline trivia leading the end brace (an empty line kept from the input), as the table is on one line
+            let end_brace_leading_trivia = end_brace
+                .leading_trivia()
+                .filter(|t| !trivia_util::trivia_is_newline(t))
+                .map(|x| x.to_owned())
+                .collect();
+
+            ContainedSpan::new(
+                fmt_symbol!(ctx, start_brace, "{ ", shape),
+                end_brace
+                    .update_leading_trivia(FormatTriviaType::Replace(end_brace_leading_trivia)),
+            )
+        }
 
         TableType::Empty => {
             let start_brace = fmt_symbol!(ctx, start_brace, "{", shape);
